@@ -1,4 +1,5 @@
 import WowVerif.Model.C18Wdl
+import WowVerif.Lib.Record
 import WowVerif.Model.Dispatch18b
 namespace Wv.Drv
 open Wv Wv.Wdl
@@ -20,6 +21,17 @@ def c18c (toks : List String) : Option String :=
       match checkFile b with
       | none => pure "bad-framing"
       | some c => pure (if c.bad.isEmpty then s!"ok tiles={c.tiles} holes={c.holes}" else s!"bad-offsets {c.bad}")
+  -- generic fixed-layout records (Lib.Record): `rec 4,4,2 7,8,9` = the bytes of a record with those field widths and values
+  -- (`err` when a value does not fit its field); `unrec 4,4,2 <hex>` = the values read back and the number of bytes left
+  | ["rec", ws, vs] => do
+      let w ← (ws.splitOn ",").mapM String.toNat?
+      let v ← (vs.splitOn ",").mapM String.toNat?
+      if w.length ≠ v.length ∨ ¬ Rec.fitsB (w.zip v) then pure "err" else pure (hexOrDash (Rec.enc (w.zip v)))
+  | ["unrec", ws, h] => do
+      let w ← (ws.splitOn ",").mapM String.toNat?
+      match Rec.dec w (← bytesOfHex h) with
+      | some (vs, rest) => pure (",".intercalate (vs.map toString) ++ s!" +{rest.length}")
+      | none => pure "short"
   | _ => none
 
 end Wv.Drv
